@@ -84,6 +84,15 @@ impl<'s> ParseState<'s> {
             old(self).auto_idx() >= old(self).src().len() ==> r.is_none() && final(self).moved_to(old(self), old(self).src().len() as int),
     { unimplemented!() }
 
+    /// the next character as a slice of the source, without automatic whitespace skipping (proved in PSCORE)
+    #[verifier::external_body]
+    fn next_char_as_str(&mut self) -> (r: &'s str)
+        requires old(self).wf(),
+        ensures
+            old(self).idx@ < old(self).src().len() ==> r@ == old(self).src().subrange(old(self).idx@, old(self).idx@ + 1) && final(self).moved_to(old(self), old(self).idx@ + 1),
+            old(self).idx@ >= old(self).src().len() ==> r@.len() == 0 && *final(self) == *old(self),
+    { unimplemented!() }
+
     #[verifier::external_body]
     fn peek<const I: usize>(&mut self) -> (r: Option<char>)
         requires old(self).wf(),
@@ -246,4 +255,20 @@ proof fn lemma_skip_ws_js_ge(s: Seq<char>, i: int)
             if k >= j + 2 && k + 2 <= s.len() { lemma_skip_ws_js_ge(s, k + 2); }
         }
     }
+}
+/// two consecutive moves are one move
+proof fn lemma_moved_trans(a: &ParseState, b: &ParseState, c: &ParseState, j: int, k: int)
+    requires a.wf(), b.moved_to(a, j), c.moved_to(b, k),
+    ensures c.moved_to(a, k),
+{
+    let s = a.src();
+    assert(s.subrange(a.idx@, k) =~= s.subrange(a.idx@, j) + s.subrange(j, k));
+    lemma_adv_split(a.line as int, a.utf16_col as int, s.subrange(a.idx@, j), s.subrange(j, k));
+    lemma_adv_monotone(a.line as int, a.utf16_col as int, s.subrange(a.idx@, k));
+}
+proof fn lemma_moved_refl(a: &ParseState)
+    requires a.wf(),
+    ensures a.moved_to(a, a.idx@),
+{
+    assert(a.src().subrange(a.idx@, a.idx@) =~= Seq::<char>::empty());
 }
